@@ -209,6 +209,8 @@ CENTRES = {
     'alanine': ('N|[{c}](|C)|C(=O)O', ['C', 'C', 'H', 'N']),
     'S-aryl-alanine': ('CSc1ccc(cc1)C|[{c}](|N)|C(=O)O', ['C', 'C', 'H', 'N']),
     'halo': ('Br|[{c}](Cl)(F)|C|C', ['Br', 'C', 'Cl', 'F']),
+    # plain bracket atoms before and after the labelled one (they must not pick up its label)
+    'zwitterion': ('[NH3+]|[{c}](|[CH3])|C(=O)[O-]', ['C', 'C', 'H', 'N']),
 }
 LABELS = [('C;x=S', 'S'), ('C;x=R', 'R'), ('C;1;S', 'S'), ('C;w=0.5;x=R', 'R'), ('CH;x=S', 'S')]
 
